@@ -38,6 +38,10 @@ pub fn relative_associativity(a: &BinOp, b: &BinOp) -> u8 {
 /// schedule point (see `yield_point`) with the id of the site.
 pub static mut YIELD_HOOK: Option<fn(u32)> = None;
 
+/// Set while the hook runs: schedule points reached by the operations the
+/// hook itself performs do not call the hook again (preemption depth 1).
+pub static mut IN_HOOK: bool = false;
+
 /// A schedule point. Called by the instrumented list operations wherever they
 /// hold no lock (before every lock acquisition, and between looking up an
 /// element pointer and using it).
@@ -45,8 +49,13 @@ pub static mut YIELD_HOOK: Option<fn(u32)> = None;
 pub fn yield_point(site: u32) {
     // SAFETY: only single-threaded verification harnesses set this hook
     unsafe {
+        if IN_HOOK {
+            return;
+        }
         if let Some(f) = *std::ptr::addr_of!(YIELD_HOOK) {
-            f(site)
+            IN_HOOK = true;
+            f(site);
+            IN_HOOK = false;
         }
     }
 }
